@@ -93,7 +93,7 @@ func runC11(c *Ctx) {
 	c.rule("D3", "Errorf: one %w, first, bound to the target kind after ConvertContextError (ErrUnknown when nil); WrapError: a cancellation/deadline cause replaces the target kind", 3)
 	c.rule("D4", "converters normalise context errors first; a pass-through case for ErrTimeout/ErrCancelled precedes every re-classifying case", 5)
 	c.rule("D6", "deserialisation re-joins every element after the kind into the reason: loop from index 1, step one, unconditional append of the (trimmed) element", 1)
-	c.rule("D7", "writer and reader of the text form agree on the separators: kind/reason (constructors vs deserialiser) and joined errors (marshaller, errors.Join vs deserialiser)", 2)
+	c.rule("D7", "writer and reader of the text form agree on the separators: kind/reason (constructors vs deserialiser) and joined errors (marshaller, errors.Join vs deserialiser); every line of a joined error is read, whatever its length", 3)
 	c.rule("D8", "the filesystem converter maps a backend condition to one kind whatever the path: no case that recognises a condition by the error's text (which embeds the caller's path) is evaluated before a case that recognises another condition structurally; the timeout case recognises Timeout() errors (os.IsTimeout)", 2)
 	c.rule("D5", "every call of commonerrors.Any / None has at least one candidate error", 45)
 
@@ -304,6 +304,28 @@ func (c *Ctx) c11Separators() {
 	// reader side
 	splitLine := constArgs(line, "strings.Split", 1)
 	splitMulti := constArgs(multi, "strings.Split", 1)
+	// a bufio.Scanner with the default split function cuts at "\n" as well
+	usesScanner, scannerErrChecked := false, false
+	allInstrs(multi, func(in ssa.Instruction) {
+		if cl, ok := in.(*ssa.Call); ok {
+			switch calleeFull(&cl.Call) {
+			case "bufio.NewScanner":
+				usesScanner = true
+			case "(*bufio.Scanner).Err":
+				scannerErrChecked = cl.Referrers() != nil && len(*cl.Referrers()) > 0
+			}
+		}
+	})
+	if usesScanner && len(splitMulti) == 0 {
+		splitMulti = []string{"\n"}
+	}
+	// every line counts: a Scanner stops silently at the first line longer than its buffer (64 KiB by default)
+	if usesScanner {
+		c.check(scannerErrChecked, "D7", "commonerrors/every-line-read", c.pos(multi.Pos()), "the scanner's error is examined",
+			"the lines of a joined error are read with a bufio.Scanner whose Err() is never examined: Scan() stops without a word at the first line longer than the scanner's buffer (64 KiB by default), so that error and every one after it vanish from the result — the kinds of a joined error do not survive when one message is long")
+	} else {
+		c.ok("D7", "commonerrors/every-line-read", c.pos(multi.Pos()), "the whole text is split in memory: no line can be skipped for its length")
+	}
 	// writer side: the separator operand of Errorf's final fmt.Errorf("%w%v %v", kind, sep, msg)
 	var written []string
 	allInstrs(errorf, func(in ssa.Instruction) {
@@ -411,6 +433,11 @@ func (c *Ctx) c11Reason() {
 				}
 			}
 		}
+	}
+	// `for _, e := range elems[1:]`: the counter starts at 0 over the split minus its first element
+	if (start == 0 || start == -1) && step && c11RangesOverTail(app) {
+		// go/ssa lowers a range over a slice to a counter that starts at -1 and is incremented before each use
+		start = 1
 	}
 	if start != 1 || !step {
 		c.violate("D6", key, c.ipos(app), "the loop over the split elements does not run from index 1 in steps of one (start "+strconv.FormatInt(start, 10)+"): elements of the reason are skipped or the kind is repeated in it")
@@ -862,4 +889,41 @@ func (c *Ctx) c11ConverterTables() {
 	}
 	c.check(okTimeout, "D8", "filesystem.ConvertFileSystemError/timeout", c.pos(fd.Pos()), "timeouts reported through Timeout() are recognised (os.IsTimeout)",
 		"no case maps an error that reports Timeout() (syscall.ETIMEDOUT, EAGAIN, net-style errors inside *os.PathError) to the 'timeout' kind: errors.Is(err, os.ErrDeadlineExceeded) and the text \"i/o timeout\" do not match them, they leave the converter unclassified and are wrapped as 'unexpected' further up")
+}
+
+func elemsOf(app *ssa.Call) ssa.Value {
+	el := variadicElems(app.Call.Args[len(app.Call.Args)-1])
+	if len(el) == 1 {
+		return el[0]
+	}
+	return app.Call.Args[len(app.Call.Args)-1]
+}
+
+// c11RangesOverTail: the element appended is read from a slice x[1:] of the split.
+func c11RangesOverTail(app *ssa.Call) bool {
+	found := false
+	var walk func(v ssa.Value, d int)
+	walk = func(v ssa.Value, d int) {
+		if d == 0 || v == nil || found {
+			return
+		}
+		switch x := v.(type) {
+		case *ssa.Call:
+			for _, a := range x.Call.Args {
+				walk(a, d-1)
+			}
+		case *ssa.UnOp:
+			walk(x.X, d-1)
+		case *ssa.IndexAddr:
+			if sl, ok := x.X.(*ssa.Slice); ok && sl.Low != nil {
+				if k, isC := constInt(sl.Low); isC && k == 1 && sl.High == nil {
+					if sc, ok := sl.X.(*ssa.Call); ok && calleeFull(&sc.Call) == "strings.Split" {
+						found = true
+					}
+				}
+			}
+		}
+	}
+	walk(elemsOf(app), 6)
+	return found
 }
